@@ -358,7 +358,32 @@ class TSetup:
         q = self.ft.acceptor_rcv_que
         return " ".join([str(len(q))] + [S.msg_tok(msg_fields(m)) for m, _raw in q])
 
+    def fab_state(self):
+        ft = self.ft
+        return (ft._order_id, ft._exec_id, sorted(getattr(ft, "_order_ids", {}).items()))
+
+    def refused_step(self, op, now_ms):
+        """a helper call that must be refused (`op[1]` performs it): what it raised, and whether it left the session
+        (both connections incl. journals, the queue, the wire) and the tester's fabrication counters untouched"""
+        world().now_ms = now_ms
+        del self.effI[:], self.effA[:]
+        pre = (dump_conn(self.ci), dump_conn(self.ca), self.que_tokens())
+        fpre = self.fab_state()
+        try:
+            r = op[1](self)
+            if hasattr(r, "send"):
+                S.run_coro(r)
+            raised = "NOT-RAISED"
+        except Exception as e:  # noqa
+            raised = type(e).__name__
+        post = (dump_conn(self.ci), dump_conn(self.ca), self.que_tokens())
+        wire = [e for e in self.effI + self.effA if e[0] == "W"]
+        self.struct = []
+        return " # ".join(["refused", raised, "1" if pre == post and not wire else "0", "1" if fpre == self.fab_state() else "0"])
+
     def step(self, op, now_ms):
+        if op[0] == "refused":
+            return self.refused_step(op, now_ms)
         world().now_ms = now_ms
         del self.effI[:], self.effA[:]
         ft, ci = self.ft, self.ci
@@ -414,6 +439,9 @@ class LSetup:
         del self.effA[:]
 
     def step(self, op, now_ms):
+        if op[0] == "refused":  # the real endpoint never sees a call the helper refused
+            self.struct = []
+            return "skipped"
         world().now_ms = now_ms
         del self.effI[:], self.effA[:]
         ci, ca = self.ci, self.ca
@@ -463,10 +491,10 @@ def group_payload(rng, k, direction):
     return ("D" if direction == "I" else "8", tags)
 
 
-def payload(rng, k, direction, groups=False):
-    if groups and rng.random() < 0.6:
+def payload(rng, k, direction, groups=False, valid_only=False):
+    if groups and not valid_only and rng.random() < 0.6:
         return group_payload(rng, k, direction)
-    kind = rng.random()
+    kind = rng.random() if not valid_only else 0.7 + 0.3 * rng.random()
     if kind < 0.5:
         return ("D" if direction == "I" else "8", [(11, f"c{k}"), (58, rng.choice(["text", "fill 1/8", "x" * 40, "café", "grüß ÿ"]))])
     if kind < 0.7:
@@ -478,13 +506,13 @@ def payload(rng, k, direction, groups=False):
                   (151, "10.0"), (55, "T"), (44, "100.0"), (38, "10.0"), (6, "0.0"), (1, "000000")])
 
 
-def op_of(name, rng, k, cfg=DEFAULT_CFG):
+def op_of(name, rng, k, cfg=DEFAULT_CFG, valid_only=False):
     if name == "logon":
         return ("isend", ("A", [(98, "0"), (108, str(cfg["hb"]))]))
     if name == "appI":
-        return ("isend", payload(rng, k, "I", cfg["proto"] == "grp"))
+        return ("isend", payload(rng, k, "I", cfg["proto"] == "grp", valid_only))
     if name == "appA":
-        return ("asend", payload(rng, k, "A", cfg["proto"] == "grp"))
+        return ("asend", payload(rng, k, "A", cfg["proto"] == "grp", valid_only))
     if name == "trI":
         return ("itestreq",)
     if name == "trA":
@@ -521,6 +549,115 @@ UNCLEAN = ["x-appI-early", "x-asend-seqreset-no34", "x-asend-raw34", "x-asend-no
            "x-isend-testreq"]
 
 
+FLOW = ["ordI", "repA", "repA", "repA-refused", "fabA-unknown", "replyA-refused"]
+
+
+def msg_spec(m):
+    return (str(getattr(m.msg_type, "value", m.msg_type)), flat_tags(m))
+
+
+class Flow:
+    """one order driven through the wire: the initiator sends its NewOrderSingle, the tester fabricates the reports that are
+    `reply()`ed (the real endpoint is handed the same message), refused helper calls in between"""
+
+    def __init__(self, seed):
+        import random
+
+        self.rng = random.Random(str(seed) + "/flow")
+        self.o, self.n, self.pending = None, 0, None
+
+    def new_order(self, ft):
+        from asyncfix.protocol.common import FOrdSide
+        from asyncfix.protocol.order_single import FIXNewOrderSingle
+
+        self.n += 1
+        self.o = FIXNewOrderSingle(f"flow{self.n}", "T", FOrdSide.BUY, float(self.rng.randint(8, 800)) / 8, float(self.rng.randint(8, 400)) / 8)
+        ft.order_register_single(self.o)
+        return self.o
+
+    def natural(self):
+        """arguments of the next natural report for the order's state"""
+        from asyncfix.protocol.common import FExecType as X, FOrdStatus as St
+
+        o, rng = self.o, self.rng
+        st = str(o.status.value)
+        if st == "A" and o.order_id is None and rng.random() < 0.5:
+            return dict(exec_type=X.PENDING_NEW, ord_status=St.PENDING_NEW)
+        if st == "A":
+            return dict(exec_type=X.NEW, ord_status=St.NEW, cum_qty=0.0, leaves_qty=float(o.qty))
+        if st in ("0", "1") and o.leaves_qty > 0:
+            x = min(o.leaves_qty, rng.randint(1, max(1, int(o.leaves_qty * 8))) / 8)
+            lv = o.leaves_qty - x
+            return dict(exec_type=X.TRADE, ord_status=St.FILLED if lv == 0 else St.PARTIALLY_FILLED, cum_qty=o.cum_qty + x,
+                        leaves_qty=lv, last_qty=x, avg_price=float(rng.randint(8, 800)) / 8)
+        return None
+
+    def bad_fabrication(self, T):
+        """a fabrication call the helper must refuse"""
+        from asyncfix.protocol.common import FExecType as X, FOrdStatus as St
+
+        o, ft, k = self.o, T.ft, self.rng.randrange(4)
+        if k == 0:
+            return ft.fix_exec_report_msg(o, o.clord_id, X.NEW, St.NEW, cum_qty=o.qty + 1.0, leaves_qty=0.0)
+        if k == 1:
+            return ft.fix_exec_report_msg(o, o.clord_id, X.NEW, St.NEW, cum_qty=0.0, leaves_qty=float(o.qty), last_qty=1.0)
+        if k == 2:
+            return ft.fix_exec_report_msg(o, "", X.NEW, St.NEW)
+        return ft.fix_exec_report_msg(o, o.clord_id, X.TRADE, St.FILLED, cum_qty=float(o.qty), leaves_qty=1.0, last_qty=float(o.qty))
+
+
+INVALID_REPLIES = [
+    ("8", [(11, "c1"), (58, "an ExecutionReport without its required members")]),
+    ("8", [(11, "c1"), (37, "1"), (17, "9"), (150, "?"), (39, "0"), (54, "1"), (14, "0.0"), (151, "1.0"), (55, "T"), (6, "0.0")]),
+    ("D", [(11, "c1"), (55, "T"), (54, "1"), (60, "20240102-03:04:05.678"), (40, "2"), (38, "ten")]),
+    ("0", [(112, "x"), (37, "tag of another message")]),
+    ("ZZ", [(58, "unknown message type")]),
+]
+
+
+def flow_op(name, T, flow, rng):
+    from . import c20
+    from asyncfix.protocol.common import FExecType as X, FOrdSide, FOrdStatus as St
+    from asyncfix.protocol.order_single import FIXNewOrderSingle
+
+    ft = T.ft
+    if name == "ordI":
+        o = flow.new_order(ft)
+        with c20.patched_time():
+            m = o.new_req()
+        ft.order_register_single(o)
+        return ("isend", msg_spec(m))
+    if name == "repA":
+        args = flow.natural() if flow.o is not None else None
+        if args is None:
+            return ("asend", ("0", []))
+        m = ft.fix_exec_report_msg(flow.o, flow.o.clord_id, args.pop("exec_type"), args.pop("ord_status"), **args)
+        flow.pending = m
+        return ("asend", msg_spec(m))
+    if name == "repA-refused":
+        if flow.o is None:
+            flow.new_order(ft)
+        return ("refused", lambda T_: flow.bad_fabrication(T_), "fabrication")
+    if name == "fabA-unknown":
+        stranger = FIXNewOrderSingle("stranger", "T", FOrdSide.SELL, 10.0, 1.0)
+        return ("refused", lambda T_: T_.ft.fix_exec_report_msg(stranger, "stranger", X.NEW, St.NEW), "fabrication")
+    if name == "replyA-refused":
+        spec = rng.choice(INVALID_REPLIES)
+        return ("refused", lambda T_: T_.ft.reply(make_msg(spec)), "reply")
+    raise ValueError(name)
+
+
+def flow_script(rng, max_len, use_schema):
+    n = rng.randint(2, max(2, max_len - 1))
+    pool = MID + FLOW * 2
+    if not use_schema:
+        pool = [x for x in pool if x != "replyA-refused"]
+    names = ["logon", "ordI"] + [rng.choice(pool) for _ in range(n - 1)]
+    if rng.random() < 0.3:
+        names.append(rng.choice(["logoutI", "logoutA"]))
+    return names
+
+
 def clean_script(rng, max_len):
     n = rng.randint(0, max_len - 2)
     names = ["logon"] + [rng.choice(MID) for _ in range(n)]
@@ -551,9 +688,15 @@ def run_script(names, counters, seed, use_schema=False, fuel=8, cfg=DEFAULT_CFG)
         return [{"name": "init", "setup_raised": f"{type(e).__name__}: {e}"}]
     recs = [{"name": "init", "t_init": (dump_conn(T.ci), dump_conn(T.ca)), "l_init": (dump_conn(L.ci), dump_conn(L.ca))}]
     now = T0
+    flow = Flow(seed)
     for k, name in enumerate(names):
         now += 1000
-        op = op_of(name, rng, k, cfg)
+        try:
+            op = flow_op(name, T, flow, rng) if name in FLOW else op_of(name, rng, k, cfg, use_schema)
+        except Exception as e:  # noqa  a fabrication the scenario needs was refused / raised
+            recs.append({"name": name, "op": ("none",), "t_line": None, "l_line": None, "l_struct": None, "t_struct": None,
+                         "t_out": f"helper-raised {type(e).__name__}: {e}", "l_out": "skipped"})
+            break
         stamp = S.stok(S.stamp(now))
         t_pre = (dump_conn(T.ci), dump_conn(T.ca), T.que_tokens())
         l_pre = (dump_conn(L.ci), dump_conn(L.ca))
@@ -565,12 +708,19 @@ def run_script(names, counters, seed, use_schema=False, fuel=8, cfg=DEFAULT_CFG)
             l_out, l_struct = L.step(op, now), L.struct
         except Exception as e:  # noqa
             l_out, l_struct = f"harness-raised {type(e).__name__}: {e}", None
+        refused = op[0] == "refused"
         recs.append({
-            "name": name, "op": op,
-            "t_line": f"tst.tstep all all {fuel} {now} {stamp} {t_pre[0]} | {t_pre[1]} | {t_pre[2]} OP {op_tokens(op)}",
-            "l_line": f"tst.lstep all all {now} {stamp} {l_pre[0]} | {l_pre[1]} OP {op_tokens(op)}",
+            "name": name, "op": op if not refused else ("refused", op[2]),
+            "t_line": None if refused else f"tst.tstep all all {fuel} {now} {stamp} {t_pre[0]} | {t_pre[1]} | {t_pre[2]} OP {op_tokens(op)}",
+            "l_line": None if refused else f"tst.lstep all all {now} {stamp} {l_pre[0]} | {l_pre[1]} OP {op_tokens(op)}",
             "t_out": t_out, "l_out": l_out, "t_struct": t_struct, "l_struct": l_struct,
         })
+        if flow.pending is not None:  # the application's on_message hands the report to the order object
+            try:
+                flow.o.process_execution_report(flow.pending)
+            except Exception:  # noqa
+                pass
+            flow.pending = None
     return recs
 
 
@@ -578,6 +728,14 @@ def lockstep_diff(rec):
     """what the initiator (and an observer of the acceptor's state) can tell apart between T and L in one step"""
     t = rec["t_out"].split(" # ")
     l = rec["l_out"].split(" # ")
+    if t[0].startswith("helper-raised"):
+        return "scenario-fabrication-refused:" + t[0][14:60]
+    if t[0] == "refused":
+        if t[1] == "NOT-RAISED":
+            return "invalid-call-accepted"
+        if t[2] != "1":
+            return "refused-call-touched-the-session"
+        return None
     if t[0].startswith("harness-raised") or l[0].startswith("harness-raised"):
         return "unrenderable:" + (t[0] if t[0].startswith("harness") else l[0])[:60]
     if t[0] != "done":
@@ -625,11 +783,12 @@ COUNTERS = [(1, 1), (1, 1), (1, 1), (5, 7), (12, 4), (40, 41)]
 
 def gen_cfg(rng):
     """configuration of the initiator under the tester: protocol class, heartbeat, journal history"""
-    return {"proto": rng.choice(["std"] * 5 + ["grp"] * 3 + ["sess"]), "hb": rng.choice([30, 30, 5, 60, 1]),
+    return {"proto": rng.choice(["std"] * 5 + ["grp"] * 3 + ["sess", "bs42"]), "hb": rng.choice([30, 30, 5, 60, 1]),
             "prejournal": rng.choice([0, 0, 0, 1, 3])}
 
 
 def gen_scripts(ctx, n, max_len, exhaustive_len):
+    """(names, counters, configuration, schema attached)"""
     import itertools
 
     rng = ctx.rng
@@ -637,9 +796,15 @@ def gen_scripts(ctx, n, max_len, exhaustive_len):
     for ln in range(0, exhaustive_len + 1):
         for mid in itertools.product(MID, repeat=ln):
             for end in ([], ["logoutI"], ["logoutA"]) if ln <= 2 else ([],):
-                out.append((["logon"] + list(mid) + end, (1, 1), DEFAULT_CFG))
+                out.append((["logon"] + list(mid) + end, (1, 1), DEFAULT_CFG, False))
     while len(out) < n:
-        out.append((clean_script(rng, max_len), rng.choice(COUNTERS), gen_cfg(rng)))
+        r = rng.random()
+        if r < 0.35:  # an order driven through the wire, refused helper calls in between; half of them with the schema attached
+            sch = rng.random() < 0.5
+            cfg = dict(gen_cfg(rng), proto=rng.choice(["std", "std", "sess"]))
+            out.append((flow_script(rng, max_len, sch), rng.choice(COUNTERS), cfg, sch))
+        else:
+            out.append((clean_script(rng, max_len), rng.choice(COUNTERS), gen_cfg(rng), False))
     return out
 
 
@@ -657,24 +822,32 @@ def correspondence(ctx, drv):
         names = clean_script(rng, 6)
         pos = rng.randrange(0, len(names) + 1)
         names.insert(pos, rng.choice(UNCLEAN))
-        scripts.append((names, rng.choice(COUNTERS), gen_cfg(rng)))
+        scripts.append((names, rng.choice(COUNTERS), dict(gen_cfg(rng), proto=rng.choice(["std", "grp", "sess"])), False))
     lines, index, all_recs = [], [], []
-    for si, (names, counters, cfg) in enumerate(scripts):
-        recs = run_script(names, counters, f"{ctx.seed}/{si}", cfg=cfg)
-        all_recs.append((names, counters, recs, cfg))
+    for si, (names, counters, cfg, sch) in enumerate(scripts):
+        recs = run_script(names, counters, f"{ctx.seed}/{si}", use_schema=sch, cfg=cfg)
+        inc(f"cfg:schema={int(sch)}")
+        all_recs.append((names, counters, recs, cfg, sch))
         inc(f"cfg:proto={cfg['proto']}")
         inc(f"cfg:hb={cfg['hb']}")
         inc(f"cfg:prejournal={cfg['prejournal']}")
         init = recs[0]
         if "setup_raised" in init:
             dis.append({"input": {"kind": "script", "names": names[:1], "counters": list(counters), "seed": f"{ctx.seed}/{si}",
-                                  "cfg": cfg}, "model": "set-up succeeds", "impl": init["setup_raised"]})
+                                  "cfg": cfg, "schema": sch}, "model": "set-up succeeds", "impl": init["setup_raised"]})
+            continue
+        for r in recs[1:]:
+            if r["t_out"].startswith("refused"):
+                inc("wire:refused:" + r["op"][1] + ":" + " ".join(r["t_out"].split(" # ")[1:]))
+        if cfg["proto"] == "bs42":  # another BeginString is outside the model (Proto.beginString): oracle only
             continue
         lines.append("tst.mkacc " + init["t_init"][0])
         index.append((si, 0, "mkacc", init["t_init"][1]))
         lines.append("tst.realacc " + init["l_init"][0])
         index.append((si, 0, "realacc", init["l_init"][1]))
         for k, r in enumerate(recs[1:], 1):
+            if r["t_line"] is None:  # a refused helper call: no model step (implementation-only clause)
+                continue
             lines.append(r["t_line"])
             index.append((si, k, "t", r["t_out"]))
             lines.append(r["l_line"])
@@ -682,11 +855,11 @@ def correspondence(ctx, drv):
     model = drv.batch(lines) if lines else []
     bad = set()
     for ml, (si, k, which, il) in zip(model, index):
-        names, counters, recs, cfg = all_recs[si]
+        names, counters, recs, cfg, _sch = all_recs[si]
         if which in ("t", "l"):
             inc(f"wire:{which}:{recs[k]['name']}")
             op = recs[k]["op"]
-            if len(op) > 1 and any(isinstance(v, list) for _t, v in op[1][1]):
+            if op[0] in ("isend", "asend") and any(isinstance(v, list) for _t, v in op[1][1]):
                 inc("wire:group-payload:" + "/".join(str(len(v)) for _t, v in op[1][1] if isinstance(v, list)) + "-items")
             distinct.add((which, recs[k]["name"], il.split(" # ")[0], il.split(" # ")[3][:8], counters))
         if which == "t" and il.startswith("nestedRaise"):
@@ -694,16 +867,17 @@ def correspondence(ctx, drv):
         if il != ml and (si, which) not in bad:
             bad.add((si, which))
             dis.append({"input": {"kind": "script", "names": names[: max(k, 1)], "counters": list(counters),
-                                  "seed": f"{ctx.seed}/{si}", "which": which, "step": k, "cfg": cfg},
+                                  "seed": f"{ctx.seed}/{si}", "which": which, "step": k, "cfg": cfg,
+                                  "schema": all_recs[si][4]},
                         "model": ml, "impl": il})
     if all_recs:
-        names, counters, recs, _cfg = all_recs[0]
+        names, counters, recs, _cfg, _sch = all_recs[0]
         samples.append({"input": {"script": names, "step": recs[-1]["t_line"][:300]}, "model": recs[-1]["t_out"][:300]})
     return {
         "evaluations": len(lines), "distinct": len(distinct), "branches": branches, "samples": samples, "disagreements": dis,
         "rule": "%d clean scripts (logon, then application messages / TestRequest / Heartbeat either way, optional Logout by "
         "either side; all scripts with ≤ %d middle steps exhaustively, the rest random up to length %d, synchronised start counters "
-        "from a small set, payload text incl. non-ASCII latin-1; random scripts run under a random CONFIGURATION of the initiator: stock protocol / a subclass with two more repeating groups (then 60%% of the application messages carry 1-3 items of a group only that subclass knows, or of a stock group) / a subclass with another session_message_types set, heartbeat 30/5/60/1, 0/1/3 rows of an earlier session in the journal) and %d scripts with one unclean step (message before Logon, reply of a SequenceReset without 34, reply with "
+        "from a small set, payload text incl. non-ASCII latin-1; random scripts run under a random CONFIGURATION of the initiator: stock protocol / a subclass with two more repeating groups (then 60%% of the application messages carry 1-3 items of a group only that subclass knows, or of a stock group) / a subclass with another session_message_types set, heartbeat 30/5/60/1, 0/1/3 rows of an earlier session in the journal; 35%% of the random scripts drive an order through the wire - NewOrderSingle by the initiator, reports fabricated by the tester and reply()ed, the same message handed to the real endpoint - with REFUSED helper calls in between (bad fabrication arguments, unknown order, with a schema attached: reply() of a schema-invalid message), which have no model step) and %d scripts with one unclean step (message before Logon, reply of a SequenceReset without 34, reply with "
         "its own 34, text outside latin-1 either way, TestRequest through send_msg); every step replayed on the real FIXTester and on a "
         "real AsyncFIXDummyServer endpoint (reader task, fake transports) and compared with tst.tstep / tst.lstep: outcome, "
         "both effect traces, both connection states incl. journals, the tester's queue; mkAcceptor / realAcceptor vs the "
@@ -711,59 +885,61 @@ def correspondence(ctx, drv):
     }
 
 
-WITNESS_BS = {"proto": "bs42", "hb": 30, "prejournal": 0}
-
-
 def oracle(ctx, failures, stats, disagreements, broken):
     rng = ctx.rng
     scripts = gen_scripts(ctx, ctx.n(120, 800) * (3 if broken else 1), ctx.n(8, 12), ctx.n(1, 2))
-    scripts = [(n, c, cfg, None) for n, c, cfg in scripts]
-    # regression of the repaired finding C20-reply-nonascii-utf8: a reply with non-ASCII single-byte text
-    scripts.insert(0, (["logon", "appA-latin1", "appI"], (1, 1), DEFAULT_CFG, None))
-    # witness of the open finding: an initiator whose protocol class has another BeginString
-    scripts.insert(1, (["logon", "appI"], (1, 1), WITNESS_BS, None))
+    scripts = [(n, c, cfg, sch, None) for n, c, cfg, sch in scripts]
+    # regressions of repaired findings: a reply with non-ASCII single-byte text; another BeginString
+    scripts.insert(0, (["logon", "appA-latin1", "appI"], (1, 1), DEFAULT_CFG, False, None))
+    scripts.insert(1, (["logon", "appI", "appA"], (1, 1), {"proto": "bs42", "hb": 30, "prejournal": 0}, False, None))
     # a reply carrying a group only the initiator's protocol knows, 2 and 3 items
-    scripts.insert(2, (["logon", "appA", "appA", "appI", "appA"], (5, 7), {"proto": "grp", "hb": 5, "prejournal": 1}, None))
+    scripts.insert(2, (["logon", "appA", "appA", "appI", "appA"], (5, 7), {"proto": "grp", "hb": 5, "prejournal": 1}, False, None))
+    # refused calls followed by valid traffic, schema attached
+    scripts.insert(3, (["logon", "ordI", "replyA-refused", "repA", "repA-refused", "repA", "fabA-unknown", "replyA-refused", "repA", "appI"],
+                       (1, 1), DEFAULT_CFG, True, None))
     for d in disagreements:  # the disagreeing inputs first, replayed exactly (same seed, same configuration)
         inp = d.get("input")
         if isinstance(inp, dict) and inp.get("kind") == "script":
-            scripts.insert(3, (inp["names"], tuple(inp["counters"]), inp.get("cfg", DEFAULT_CFG), inp["seed"]))
-    steps, dist = 0, {}
-    for si, (names, counters, cfg, seed) in enumerate(scripts):
+            scripts.insert(4, (inp["names"], tuple(inp["counters"]), inp.get("cfg", DEFAULT_CFG), inp.get("schema", False), inp["seed"]))
+    steps, dist, refused, consumed = 0, {}, {}, 0
+    for si, (names, counters, cfg, sch, seed) in enumerate(scripts):
         seed = seed or f"o{ctx.seed}/{si}"
         dist[cfg["proto"]] = dist.get(cfg["proto"], 0) + 1
-        recs = run_script(names, counters, seed, cfg=cfg)
+        recs = run_script(names, counters, seed, use_schema=sch, cfg=cfg)
+        inp = {"kind": "script", "names": names, "counters": list(counters), "seed": seed, "cfg": cfg, "schema": sch}
         if "setup_raised" in recs[0]:
             failures.append({"signature": "C20-tester-setup-raises:" + recs[0]["setup_raised"].split(":")[0],
                              "what": "FIXTester / the endpoints could not be built for this configuration",
-                             "input": {"kind": "script", "names": names[:1], "counters": list(counters), "seed": seed, "cfg": cfg},
-                             "observed": recs[0]["setup_raised"]})
+                             "input": dict(inp, names=names[:1]), "observed": recs[0]["setup_raised"]})
             continue
         for k, r in enumerate(recs[1:], 1):
             steps += 1
+            if r["t_out"].startswith("refused"):
+                parts = r["t_out"].split(" # ")
+                refused[r["op"][1] + ":" + parts[1]] = refused.get(r["op"][1] + ":" + parts[1], 0) + 1
+                consumed += parts[3] == "0"
             diff = lockstep_diff(r)
             if diff is None:
                 continue
             if r["name"].startswith("x-"):
                 break
-            if cfg["proto"] == "bs42":
-                sig = "C20-acceptor-protocol-hardwired"
-                what = ("the simulated acceptor is always built with FIXProtocol44(): an initiator whose protocol class has another "
-                        "BeginString cannot log on to it (both sides drop the connection), a real acceptor endpoint configured like "
-                        "the initiator completes the Logon")
+            if r["t_out"].startswith("refused"):
+                sig, what = f"C20-refused-call:{r['name']}:{diff}", "a helper call that must be refused was accepted, or left a trace in the session"
             else:
                 sig, what = f"C20-lockstep:{r['name']}:{diff}", "tester and real acceptor endpoint differ in a clean script"
-            failures.append({"signature": sig, "what": what,
-                             "input": {"kind": "script", "names": names[:k], "counters": list(counters), "seed": seed, "cfg": cfg},
+            failures.append({"signature": sig, "what": what, "input": dict(inp, names=names[:k]),
                              "expected": (r["l_out"][:400], r.get("l_struct")), "observed": (r["t_out"][:400], r.get("t_struct"))})
             break
     stats["script_steps"] = steps
     stats["scripts"] = len(scripts)
     stats["script_protocols"] = dist
+    stats["refused_calls_in_scripts"] = refused
+    stats["refused_fabrications_that_consumed_an_ExecID_or_OrderID"] = consumed
 
 
 def replay(ctx, inp, sig):
-    recs = run_script(inp["names"], tuple(inp["counters"]), inp["seed"], cfg=inp.get("cfg", DEFAULT_CFG))
+    recs = run_script(inp["names"], tuple(inp["counters"]), inp["seed"], use_schema=inp.get("schema", False),
+                      cfg=inp.get("cfg", DEFAULT_CFG))
     if "setup_raised" in recs[0]:
         print("replay: set-up raised", recs[0]["setup_raised"])
         return True
